@@ -212,7 +212,11 @@ PreludeSigs == << [name |-> "id", sig |-> "fn id(a) -> a"], [name |-> "apply", s
                   \* a recursion group whose members share one type variable while each also has one of its own (the element
                   \* type of an empty list nothing constrains): `let boxed = #(value, [])` in ping, `let wrapped = #(item, [])` in pong
                   [name |-> "ping", sig |-> "fn ping(a, Int) -> a"], [name |-> "pong", sig |-> "fn pong(a, Int) -> a"],
-                  [name |-> "let boxed", sig |-> "#(a, List(b))"], [name |-> "let wrapped", sig |-> "#(a, List(b))"] >>
+                  [name |-> "let boxed", sig |-> "#(a, List(b))"], [name |-> "let wrapped", sig |-> "#(a, List(b))"],
+                  \* a function on its own is a recursion group too: a parameter whose type follows only from the recursive call
+                  [name |-> "countdown", sig |-> "fn countdown(Int, String) -> String"],
+                  \* a module may declare a type spelled like one of the prelude's (BitArray): its own declaration is the one meant
+                  [name |-> "bits_of", sig |-> "fn bits_of(BitArray) -> Int"], [name |-> "let got", sig |-> "Int"] >>
 ASSUME PrintT(<<"PRELUDE", ToJson(PreludeSigs)>>)
 
 \* environment: sequence of frames, each a set of <<name, type>>; a mark frame delimits a block
